@@ -207,6 +207,9 @@ LAYOUT = {
 "list": "l :: [1, 2, 3]\n",
 "tuple": "t :: (1, \"a\")\n",
 "blob_instance": "p :: P { a: 1, b: [2] }\n",
+"one_tuple_and_trailing_commas": "t :: (42,)\nu :: ((1,), 2)\nw :: (1, 2,)\n",
+"empty_tuple_and_grouping": "e :: ()\ng :: (42)\nh :: ((1 + 2), (3))\n",
+"trailing_commas_in_list_and_call": "l :: [1, 2,]\nx :: f(1, 2,)\n",
 "nested_call_arrow_parens": "y :: f(x -> f(1), (2 + 3) * 4)\n",
 "prime_inside_brackets": "y :: g(f' 1, 2)\nz :: [f' 1]\n",
 "prime_call_continuation": "x := add' 1,\n    2\ny := 3\n",
@@ -427,6 +430,9 @@ def native_ast_same(replay, a, b):
 
 FACT = "    if n < 1 do\n            ret 1\n        end\n        ret n * fac(n - 1)\n"
 NATIVE_PAIRS = [
+    # what a comment contains is insignificant, whatever it is: code-like text, brackets, quotes, a carriage return, comment starters
+    ("comment_contents", HEAD + "start :: fn do\n    x := 1\n    pr(x)\nend\n",
+     HEAD + "// ) oops ( [ } \" ' end do\nstart :: fn do // fn do\n    x := 1 // was: \r x = 2\n    // note\r    x = 3\n    pr(x) // <<<<<<< //// \\ \t ret\r\nend // end\n//\r\n//\rpr(1)\n"),
     ("arrow_call_followed_by_operator", HEAD + "start :: fn do\n    pr(add(1, 2) + 1)\n    pr(inc(add(1, 2)) * 2 - 1)\nend\n", HEAD + "start :: fn do\n    pr(1 -> add(2) + 1)\n    pr(1 -> add(2) -> inc() * 2 - 1)\nend\n"),
     ("arrow_call_in_comparison", HEAD + "start :: fn do\n    pr(add(1, 2) == 3)\n    pr(add(1, 2) < inc(3) and true)\nend\n", HEAD + "start :: fn do\n    pr(1 -> add(2) == 3)\n    pr(1 -> add(2) < 3 -> inc() and true)\nend\n"),
     ("parenthesised_arrow_target", HEAD + "start :: fn do\n    pr(add(1, 2))\nend\n", HEAD + "start :: fn do\n    pr(1 -> (add(2)))\nend\n"),
